@@ -122,9 +122,23 @@ func gcScenariosC04(c *Ctx) []gcScenario {
 				Gate: &gcGate{Point: pt, ID: "s:s2", Event: "publish:t1"}})
 		}
 	}
+	// a Subscribe that lands between two messages of one multi-message Publish
+	for _, blk := range []bool{false, true} {
+		for _, pt := range []string{"gochannel.publish.rlocked", "gochannel.publish.locked", "gochannel.publish.persisted", "gochannel.publish.sent"} {
+			for _, id := range []string{"m:1", "m:2"} {
+				scs = append(scs, gcScenario{Class: "overlap-batch/" + pt, Persistent: true, Blocking: blk, Buffer: 1,
+					Subs: []gcSub{{Name: "s1", Topic: "t1", Behav: "ack"}},
+					Pubs: []gcPub{{Name: "p1", Topic: "t1", N: 3, Batch: true}},
+					Gate: &gcGate{Point: pt, ID: id, Event: "subscribe:t1"}})
+			}
+		}
+		scs = append(scs, gcScenario{Class: "batch-subscribe", Persistent: true, Blocking: blk, Buffer: 0,
+			Subs: []gcSub{{Name: "s1", Topic: "t1", Behav: "slow"}, {Name: "s2", Topic: "t1", Behav: "ack", Phase: 1}, {Name: "s3", Topic: "t1", Behav: "ack", Phase: 1}},
+			Pubs: []gcPub{{Name: "p1", Topic: "t1", N: 4, Batch: true}}})
+	}
 	// fan-out to many subscriptions while some of them are cancelled: the others must not be affected
 	for i := 0; i < c.Pick(12, 150); i++ {
-		sc := gcScenario{Class: "fanout-unsubscribe", Persistent: i%3 == 0, Buffer: i % 2}
+		sc := gcScenario{Class: "fanout-unsubscribe", Persistent: i%3 == 0, Blocking: i%4 == 1, Buffer: i % 2}
 		for k := 0; k < 14; k++ {
 			sb := gcSub{Name: fmt.Sprintf("s%d", k+1), Topic: "t1", Behav: "ack"}
 			if k < 4 {
@@ -159,6 +173,12 @@ func gcScenariosC05(c *Ctx) []gcScenario {
 					Subs: []gcSub{{Name: "s1", Topic: "t1", Behav: b}, {Name: "s2", Topic: "t1", Behav: "ack"}},
 					Pubs: []gcPub{{Name: "p1", Topic: "t1", N: 3}, {Name: "p2", Topic: "t1", N: 2}}})
 			}
+			// one blocking Publish call with several messages: handed over one after the other
+			for _, b := range []string{"ack", "nack1", "slow"} {
+				scs = append(scs, gcScenario{Class: "blocking-batch/" + gcCfgName(per, true, buf), Persistent: per, Blocking: true, Buffer: buf,
+					Subs: []gcSub{{Name: "s1", Topic: "t1", Behav: b}, {Name: "s2", Topic: "t1", Behav: "ack"}},
+					Pubs: []gcPub{{Name: "p1", Topic: "t1", N: 5, Batch: true}, {Name: "p2", Topic: "t1", N: 3, Batch: true}}})
+			}
 			// blocking publish against a consumer that never acks: released by cancel / by Close
 			scs = append(scs, gcScenario{Class: "blocking-neverack-cancel/" + gcCfgName(per, true, buf), Persistent: per, Blocking: true, Buffer: buf,
 				Subs: []gcSub{{Name: "s1", Topic: "t1", Behav: "neverack", CancelAt: 2}},
@@ -179,7 +199,25 @@ func gcScenariosC05(c *Ctx) []gcScenario {
 				Subs: []gcSub{{Name: "s1", Topic: "t1", Behav: "republish:t2"}, {Name: "s2", Topic: "t2", Behav: "ack"}},
 				Pubs: []gcPub{{Name: "p1", Topic: "t1", N: 1}},
 				Gate: &gcGate{Point: "gochannel.send.wait_settle", ID: "m:1", Event: "subscribe:t2"}})
+			// ... or a Subscribe to the very topic whose blocking Publish is waiting for that ack
+			scs = append(scs, gcScenario{Class: "blocking-republish-pending-subscribe-same-topic/" + gcCfgName(per, true, buf), Persistent: per, Blocking: true, Buffer: buf,
+				Subs: []gcSub{{Name: "s1", Topic: "t1", Behav: "republish:t2"}, {Name: "s2", Topic: "t2", Behav: "ack"}},
+				Pubs: []gcPub{{Name: "p1", Topic: "t1", N: 1}},
+				Gate: &gcGate{Point: "gochannel.send.wait_settle", ID: "m:1", Event: "subscribe:t1"}})
 		}
+	}
+	// blocking fan-out to many subscriptions while some of them are cancelled: Publish still waits for all the others
+	for i := 0; i < c.Pick(10, 150); i++ {
+		sc := gcScenario{Class: "blocking-fanout-unsubscribe", Persistent: i%3 == 0, Blocking: true, Buffer: i % 2}
+		for k := 0; k < 12; k++ {
+			sb := gcSub{Name: fmt.Sprintf("s%d", k+1), Topic: "t1", Behav: "ack"}
+			if k < 5 {
+				sb.CancelAt = 1
+			}
+			sc.Subs = append(sc.Subs, sb)
+		}
+		sc.Pubs = []gcPub{{Name: "p1", Topic: "t1", N: 4}, {Name: "p2", Topic: "t1", N: 4}, {Name: "p3", Topic: "t1", N: 4}}
+		scs = append(scs, sc)
 	}
 	n := c.Pick(60, 2000)
 	for i := 0; i < n; i++ {
@@ -253,6 +291,9 @@ func gcScenariosC07(c *Ctx) []gcScenario {
 			sc.Subs[k].Decorators = c.Rng.Intn(3)
 			if c.Rng.Intn(3) == 0 {
 				sc.Subs[k].CancelAt = 1 + c.Rng.Intn(2)
+				if sc.Subs[k].Phase == 2 {
+					sc.Subs[k].CancelAt = 2 // a subscription is cancelled only once it exists
+				}
 			}
 			if c.Rng.Intn(6) == 0 {
 				sc.Subs[k].Behav = "neverack"
@@ -288,6 +329,15 @@ func gcScenariosC11(c *Ctx) []gcScenario {
 				Pubs: []gcPub{{Name: "p0", Topic: "t1", N: 2}},
 				Gate: &gcGate{Point: pt, ID: "s:s2", Event: "publish:t1"}})
 		}
+	}
+	// the FIRST subscription of a topic races with many publishers (no subscription exists when they start)
+	for i := 0; i < c.Pick(12, 300); i++ {
+		sc := gcScenario{Class: "first-subscriber", Persistent: true, Buffer: i % 2}
+		sc.Subs = []gcSub{{Name: "s1", Topic: "t1", Behav: "ack", Phase: 1}, {Name: "s2", Topic: "t1", Behav: "ack", Phase: 2}}
+		for k := 0; k < 12; k++ {
+			sc.Pubs = append(sc.Pubs, gcPub{Name: fmt.Sprintf("p%d", k+1), Topic: "t1", N: 2})
+		}
+		scs = append(scs, sc)
 	}
 	// larger programs: many publishes and subscriptions on one topic
 	n := c.Pick(30, 800)
